@@ -18,6 +18,7 @@ THEOREMS = [
     "Ctx.C05.ctx_noninterference", "Ctx.C05.new_thread_no_action", "Ctx.C05.task_inherits_creator",
     "Ctx.C05.attribution_schedule_independent", "Ctx.C05.attribution_schedule_independent_lookup",
     "Ctx.C05.tree_shape_schedule_independent", "Ctx.C05.tree_shape_schedule_independent_allDone",
+    "Ctx.C05.unit_order", "Ctx.C05.unit_order_schedule_independent",
 ]
 GENERATED_OBLIGATIONS = ["Generated.actionContext: ContextVar used only through get/set/reset (E7)"]
 RULE = ("fork-join programs: 2-4 units (threads or asyncio tasks, nested spawns allowed), 2-6 logging statements each (enter/exit of own "
@@ -31,11 +32,19 @@ RULE = ("fork-join programs: 2-4 units (threads or asyncio tasks, nested spawns 
 TRUSTED = ["CPython contextvars semantics for threads (fresh context) and asyncio tasks (copy at creation) are modelled (Ctx.step), validated by this run",
            "the controller / handshake of the harness (one statement per release)"]
 ASSUMPTIONS = ["occurrence ids are unique (OccUnique) and every unit is spawned once by a lower-numbered unit",
-               "units do not share Action objects across threads (documented as unsupported by eliot)",
+               "Action objects ARE shared between units (handles): any unit may run `with h.context():` blocks on any live action, "
+               "unrestricted; `with h:` (Action.__enter__/__exit__) keeps its reset token on the Action itself, so an Action is inside at most "
+               "one such block at a time and is not entered again once finished - in the model a `withOf h` that would break this is disabled "
+               "(out of domain), the generator never produces one; two units calling methods of one Action at the same instant (a data race "
+               "inside eliot, not a schedule at logging-call boundaries) is outside the model",
                "thread units spawn/join threads only; task units may spawn/join both",
                "a thread started through preserve_context (pthread) is, for the model, a unit that inherits the action current where the "
                "wrapper was made and whose first statement `remote o` continues it (the real thread has no current action before that call)",
-               "an Action is entered with `with` at most once overall (eliot keeps that token on the Action); `context()` blocks are unrestricted"]
+               "`remote o` restores the empty context when its block ends: right only as the first statement of a thread unit (the generator "
+               "puts it nowhere else); without an action current where the wrapper is made the unit is a plain thread (in the model `remote` is then disabled)",
+               "E7 checks that `_ACTION_CONTEXT` is touched only through get/set/reset and that every reset's argument is the very expression a "
+               "`set` result was stored in, in the same function (`parent`) or class (`self._parent_token`); that the stored token is not "
+               "overwritten between the two is the `with`-block assumption above"]
 EXPLANATION = ("potential-function proof: log ++ future ~ sequential log for every schedule; model tied to the code by comparing, per step, "
                "the unit's current_action() before/after and the emitted message with its parent")
 
@@ -172,9 +181,36 @@ def gen_program(rng, nunits, family):
                     if new is not None:
                         codes[v] = new
                         nshared += 1
+    # a preserve_context thread continues the action current where the wrapper is made (`remote`); with no action
+    # there preserve_context returns the function itself: the unit is then a plain thread for the model
+    parent_of = {v: u for u in children for v in children[u]}
+    has_remote = {}
+
+    def base_some(u):
+        if u == 0 or kinds[u] == "thread":
+            return False
+        if kinds[u] == "pthread":
+            return False          # its own context is empty; inside the `remote` block the stack below says otherwise
+        return ctx_some(parent_of[u], u)
+
+    def ctx_some(u, v):
+        """is some action current in unit u where it spawns v?"""
+        cur, stack = base_some(u), []
+        for st in codes[u]:
+            if st[0] in ("thread", "task", "pthread") and st[1] == v:
+                return cur
+            if st[0] in ("enter", "with", "ctx", "remote"):
+                stack.append(cur)
+                cur = True
+            elif st[0] == "exit" and stack:
+                cur = stack.pop()
+        return cur
+
     for v in range(1, nunits):
         if kinds[v] == "pthread":
-            codes[v] = [["remote", 2000 + next(ctr)]] + codes[v] + [["exit"]]
+            has_remote[v] = ctx_some(parent_of[v], v)
+            if has_remote[v]:
+                codes[v] = [["remote", 2000 + next(ctr)]] + codes[v] + [["exit"]]
     return dict(codes=codes, family=family, kinds=[kinds[u] for u in range(nunits)], shared=nshared)
 
 
@@ -375,8 +411,12 @@ class Runner(object):
                 V.started = True
                 V.go = threading.Semaphore(0)
                 V.done_evt = threading.Event()
-                wrapped = preserve_context(lambda v=st[1]: self.pthread_inner(v))
-                V.thread = threading.Thread(target=self.pthread_main, args=(st[1], wrapped), daemon=True)
+                if self.codes[st[1]] and self.codes[st[1]][0][0] == "remote":
+                    wrapped = preserve_context(lambda v=st[1]: self.pthread_inner(v))
+                    V.thread = threading.Thread(target=self.pthread_main, args=(st[1], wrapped), daemon=True)
+                else:
+                    # no action is current here: preserve_context hands the function back, the unit is a plain thread
+                    V.thread = threading.Thread(target=preserve_context(lambda v=st[1]: self.thread_main(v)), daemon=True)
                 V.thread.start()
             elif op == "task":
                 V = self.U[st[1]]
@@ -700,6 +740,42 @@ def oracle(ctx, case, real, seq_shape):
             ctx.violation("%s %s of unit %d is attributed to %s in the parsed log, the unit's current action was %s" % (r["kind"], r["occ"], r["unit"], got, r["parent"]),
                           c, key={"component": "attribution"})
             break
+    # order: what ONE unit logs under one action appears there in the unit's program order (only siblings that ran
+    # concurrently - logged by different units - may come in any order)
+    pos = {}
+    starts = {}
+    for m in real["messages"]:
+        lvl = list(m.get("task_level") or [])
+        if m.get("action_status") == "started":
+            occ = m.get("occ")
+            if occ is None:
+                occ = (real.get("remote") or {}).get("%s@%s" % (m.get("task_uuid"), lvl[:-1]))
+            if occ is not None:
+                pos[("start", occ)] = (m.get("task_uuid"), lvl[:-1])
+                starts[(m.get("task_uuid"), tuple(lvl[:-1]))] = occ
+        elif m.get("message_type") == "msg":
+            pos[("msg", m.get("occ"))] = (m.get("task_uuid"), lvl)
+    for m in real["messages"]:
+        if m.get("action_status") in ("succeeded", "failed"):
+            lvl = list(m.get("task_level") or [])
+            occ = starts.get((m.get("task_uuid"), tuple(lvl[:-1])))
+            if occ is not None:
+                pos[("end", occ)] = (m.get("task_uuid"), lvl)
+    last = {}
+    for r in real["log"]:
+        if r["parent"] is None:
+            continue
+        here = pos.get((r["kind"], r["occ"]))
+        if here is None:
+            continue
+        k = (r["unit"], r["parent"])
+        if k in last and last[k][1][0] == here[0] and not (last[k][1][1] < here[1]):
+            ok = False
+            ctx.violation("unit %d logged %s %s before %s %s inside action %s, but their task levels are %s then %s" %
+                          (r["unit"], last[k][0]["kind"], last[k][0]["occ"], r["kind"], r["occ"], r["parent"], last[k][1][1], here[1]), c,
+                          key={"component": "unit-order"})
+            break
+        last[k] = (r, here)
     if all(real["done"]) and seq_shape is not None and shape != seq_shape:
         ok = False
         ctx.violation("parsed trees differ from those of the sequential run (beyond sibling order)", c, key={"component": "tree-shape"},
@@ -728,7 +804,8 @@ def evaluate(ctx, cases, tag):
             raise AssertionError("generator produced a program that is not fork-join: %r" % (c["codes"],))
     # for the model a preserve_context thread is a unit that inherits the action current where the wrapper is made
     # (Stmt.spawnTask) and whose first statement `remote o` continues it
-    model = lean_driver("Driver/C05.lean", [dict(codes=[[["task", st[1]] if st[0] == "pthread" else st for st in code] for code in c["codes"]],
+    model = lean_driver("Driver/C05.lean", [dict(codes=[[([("task" if c["codes"][st[1]][:1] and c["codes"][st[1]][0][0] == "remote" else "thread"), st[1]]
+                                                                if st[0] == "pthread" else st) for st in code] for code in c["codes"]],
                                                  sched=c["sched"]) for c in cases])
     seq_cache = {}
     for c, m in zip(cases, model):
@@ -994,7 +1071,7 @@ def small_programs():
                                  [["remote", 10], ["log", 11], ["exit"]],
                                  [["remote", 20], ["enter", 21], ["exit"], ["exit"]]], kinds=[k0, "pthread", "pthread"], family=fam))
         progs.append(dict(codes=[[["pthread", 1], ["enter", 1], ["log", 2], ["exit"], ["join", 1]],
-                                 [["remote", 10], ["log", 11], ["exit"]]], kinds=[k0, "pthread"], family=fam))
+                                 [["log", 11], ["log", 12]]], kinds=[k0, "pthread"], family=fam))
     return progs
 
 
